@@ -85,13 +85,21 @@ def _full_run_signatures(pid, tier, seed):
     return {l[len("SEEN signature="):].strip() for l in r.stdout.splitlines() if l.startswith("SEEN signature=")}
 
 
+_FULL_RUNS = {}
+
+
 def _confirm_by_full_run(pid, tier, seed, viol):
     """Last fallback: the violation may need state the implementation carried over from *other jobs* run earlier in the
     same worker process. A complete single-process run is deterministic; it is made twice, in fresh interpreters."""
     if os.environ.get("VERIF_FULLRUN"):
         return False
-    for _ in range(2):
-        if viol["signature"] not in _full_run_signatures(pid, tier, seed):
+    # the two complete runs are made once per invocation and serve every signature that needs them
+    key = (pid, tier, seed)
+    runs = _FULL_RUNS.setdefault(key, [])
+    for i in range(2):
+        if len(runs) <= i:
+            runs.append(_full_run_signatures(pid, tier, seed))
+        if viol["signature"] not in runs[i]:
             return False
     return True
 
